@@ -247,7 +247,9 @@ void Exec::op_query_invalid(Client &c) {
 	int badc = bad_index(v, n, m), badr = bad_index(v, m, n);
 	bool cbad = badc < 0 || badc >= n, rbad = badr < 0 || badr >= m;
 	QArr t(4); std::string before = snapshot(*o); int rv = 0; std::string w; bool idx_neg1 = false;
-	switch (modn(v / 7, 16)) {
+	switch (modn(v / 7, 18)) {
+	case 16: case 17: if (!cbad || !n) { T("  skip"); return; } { bool first = modn(v / 7, 18) == 16; w = first ? "strongbranch:badindex-first" : "strongbranch:badindex-second"; int l[2] = {first ? badc : modn(v, n), first ? modn(v, n) : badc}; QArr dn(2), up(2), ob(1); mpq_set_ui(ob.at(0), 1000000, 1);
+		rv = mpq_QSopt_strongbranch(p, 2, l, 0, dn.p(), up.p(), 3, ob.at(0)); } break;
 	case 0: if (!cbad) { T("  skip"); return; } w = strf("getbound:badindex%s", badc == n ? ":n" : ""); rv = mpq_QSget_bound(p, badc, 'L', t.ptr(0)); break;
 	case 1: if (!n) { T("  skip"); return; } w = "getbound:badselector"; rv = mpq_QSget_bound(p, modn(v, n), 'X', t.ptr(0)); break;
 	case 2: if (!rbad || !n) { T("  skip"); return; } w = "getcoef:badrow"; rv = mpq_QSget_coef(p, badr, 0, t.ptr(0)); break;
